@@ -446,11 +446,12 @@ theorem offinv_instStart (s : Stack) (i : Nat) (hi : OffInv s) : OffInv (s.instS
     · rename_i hnone
       have hxt : x.task = none := by cases h : x.task <;> simp_all
       -- step 1: canAnswer := false
-      have h1 := hi.setCanFalse i x hx
-      generalize hs1 : s.setInst i { x with canAnswer := false } = s1 at h1
+      have hiL : OffInv (s.logOffer i .start) := offinv_frame (opi_logOffer _ _ _) hi
+      have h1 := hiL.setCanFalse i x hx
+      generalize hs1 : (s.logOffer i .start).setInst i { x with canAnswer := false } = s1 at h1
       have hx1 : s1.getInst i = some { x with canAnswer := false } := by
         rw [← hs1]; unfold getInst setInst; simp only []
-        have hlt : i < s.instances.length := (List.getElem?_eq_some_iff.mp hx).1
+        have hlt : i < (s.logOffer i .start).instances.length := (List.getElem?_eq_some_iff.mp hx).1
         rw [List.getElem?_set]; simp [hlt]
       simp only []
       -- step 2: the new task, then the instance takes it
@@ -526,12 +527,13 @@ theorem offinv_instStop (s : Stack) (i : Nat) (hi : OffInv s) : OffInv (s.instSt
     · rename_i n hn
       simp only []
       apply offinv_frame (opi_subsStopAll _ _)
-      have h1 := offinv_cancelTask s i n hi
-      have hx1 : (s.cancelTask (.offer i, n)).getInst i = some x := by
+      have hiL : OffInv (s.logOffer i .stop) := offinv_frame (opi_logOffer _ _ _) hi
+      have h1 := offinv_cancelTask (s.logOffer i .stop) i n hiL
+      have hx1 : ((s.logOffer i .stop).cancelTask (.offer i, n)).getInst i = some x := by
         rw [getInst_of_instances]; exact hx
         unfold cancelTask; split; rfl; split; rfl; split <;> rfl
-      have h2 : OffInv ((s.cancelTask (.offer i, n)).setInst i { x with task := none, canAnswer := false }) :=
-        h1.setStopped i n x _ hx1 hn (fun t ht => otask_cancelled s i n t ht) rfl rfl
+      have h2 : OffInv (((s.logOffer i .stop).cancelTask (.offer i, n)).setInst i { x with task := none, canAnswer := false }) :=
+        h1.setStopped i n x _ hx1 hn (fun t ht => otask_cancelled (s.logOffer i .stop) i n t ht) rfl rfl
       split
       · exact offinv_frame (opi_sendOffer _ _ _ _) h2
       · exact h2
